@@ -1,6 +1,8 @@
 (* Suites C05 and C16 share one trace format (the harness suite "DIRTY" is run once per property
    under both names): 
      inp:  hostmod nregions [start,size,ps,tracked]*  step*        step = one TL, see dec_step
+           ([4,ri,rj,doff,dlen,nchain,(dop,x,y,z)*] = slice-to-slice copy out of the accessor derived from region ri
+            into region rj's get_slice(doff,dlen))
      obs:  per step:  [ok,count,late]  then per region  [page bits...] [o1,n1,o2,n2,...]              *)
 From VM Require Import Prelude.MachInt Prelude.Tok Impl.Dirty Spec.C05.
 
@@ -54,6 +56,11 @@ Definition dec_step (l : list N) : option step :=
   | [1; code; a1; a2; a3] => match dec_gop code a1 a2 a3 with Some o => Some (SGuest o) | None => None end
   | [2; ri] => if 64 <? ri then None else Some (SReset (N.to_nat ri))
   | [3; ri; off; len] => if 64 <? ri then None else Some (SResetRange (N.to_nat ri) off len)
+  | 4 :: ri :: rj :: doff :: dlen :: nch :: r =>
+      if (64 <? ri) || (64 <? rj) || (64 <? nch) then None else
+      match dec_chain (S (length r)) nch r with
+      | Some ch => Some (SCopy (N.to_nat ri) ch (N.to_nat rj) doff dlen)
+      | None => None end
   | _ => None end.
 
 (* step kind for the checkers, derived from the case alone *)
